@@ -67,7 +67,9 @@ def bdf_iteration(backward=False):
                 far = w.d(w.xend.t - xh.t) >= qv(64 * EPS) * w.S
                 ob.check(p, z3.Implies(far, w.d(cb["x"].t - xh.t) > 0), "BDF: accepted step does not move toward xend")
                 if w.hmax is not None:
-                    ob.check(p, zabs(cb["x"].t - xh.t) <= w.hmax.t * (1 + qv(8 * EPS)) + w.slack, "BDF: accepted step longer than max_step")
+                    lands = zabs(cb["x"].t - w.xend.t) <= w.slack
+                    lim = z3.If(lands, qv(Fraction(10001, 10000)) * w.hmax.t * (1 + qv(8 * EPS)), w.hmax.t * (1 + qv(8 * EPS)))
+                    ob.check(p, zabs(cb["x"].t - xh.t) <= lim + w.slack, "BDF: accepted step longer than max_step (0.01% stretch only when landing on xend)")
                 ip = cb["interp"]
                 ok_ip = isinstance(ip, REnum) and ip.name == "Some"
                 ob.check(p, ok_ip, "BDF: accepted step handed to the callback without an interpolant")
